@@ -9,6 +9,7 @@ GROUPS = {
     "codes": ["C19"],
     "hints": ["C20"],
     "transit": ["C06", "C07"],
+    "xfer": ["C04"],
 }
 
 
